@@ -20,7 +20,7 @@ from fractions import Fraction as F
 import numpy as np
 
 PROP = 'C09'
-TARGETS = ['TC09a', 'TC09b', 'TC09c', 'TC09d', 'TC09e', 'TC09f', 'TC09g', 'TC09h']
+TARGETS = ['TC09a', 'TC09b', 'TC09c', 'TC09d', 'TC09e', 'TC09f', 'TC09g', 'TC09h', 'TC09i', 'TC09j', 'TC09k']
 LEAN_MODULES = ['HdVerif.Props.C09']
 MODEL_MODULES = ['HdVerif.Model.Match']
 NAMESPACE = 'HdVerif.C09'
